@@ -155,6 +155,56 @@ def full_chain(ctx, maker, case, ks, X, m, t, te, Tp, R, sa):
                 ctx.violation({'op': 'CHECK_SIG_STACK', 'clause': 'accepts wrong-scalar decryption', 'maker': maker}, f'{tag}')
 
 
+def param_set(seed, idx):
+    ks = env.sym(seed, 'seqK%d' % idx)
+    X = refed.public_key(ks)
+    m = env.sym(seed, 'seqm%d' % idx, 20 + idx)
+    t = env.sym(seed, 'seqt%d' % idx)
+    t = bytes(t[:31]) + bytes([t[31] & 0x7f])
+    Tp = refed.base_mul_enc(teff(t))
+    r, st, _ = run(P(ks) + P(m) + P(Tp) + op('MAKE_ADAPTER_SIG_PUBLIC'))
+    assert r is None and len(st) == 2, (r, st)
+    R, sa = st
+    return {
+        'MASU': P(ks) + P(m) + P(Tp) + op('MAKE_ADAPTER_SIG_PUBLIC'),
+        'MASV': P(m) + P(t) + P(ks) + op('MAKE_ADAPTER_SIG_PRIVATE'),
+        'CAS': P(sa) + P(R) + P(m) + P(Tp) + P(X) + op('CHECK_ADAPTER_SIG'),
+        'DAS': P(sa) + P(R) + P(t) + op('DECRYPT_ADAPTER_SIG'),
+        'DERIVE_POINT': P(t) + op('DERIVE_POINT'),
+        'DERIVE_SCALAR': P(ks) + op('DERIVE_SCALAR'),
+        'SIGN_STACK': P(m) + P(ks) + op('SIGN_STACK'),
+        'CLAMP': P(t) + op('CLAMP_SCALAR') + b'\x00',
+    }
+
+
+def sequence_case(ctx, case):
+    """every ordered pair of adapter / derivation instructions with independent parameters in ONE script (one cache):
+    the second instruction yields exactly what it yields when run alone - no value cached by the first may be reused"""
+    a_name, b_name = case
+    seed = ctx.seed
+    sets = [param_set(seed, 0), param_set(seed, 1)]
+    n = 0
+    for ai, bi in ((0, 1), (1, 0), (0, 0)):
+        n += 1
+        A, B = sets[ai][a_name], sets[bi][b_name]
+        r0, st0, _ = run(B)
+        r1, st1, _ = run(A + B)
+        ra, sta, _ = run(A)
+        ctx.ran(3); ctx.trans(3)
+        ctx.state(('seq', a_name, b_name, ai, bi))
+        ctx.outcome('seq:%s' % ('raise' if r1 is not None else 'ok'))
+        if ra is not None or r0 is not None:
+            ctx.violation({'block': 'sequences', 'clause': 'instruction runs alone', 'op': a_name if ra is not None else b_name},
+                          f'{a_name}/{b_name}: {ra!r} {r0!r}')
+            continue
+        if r1 is not None or st1 != sta + st0:
+            ctx.violation({'block': 'sequences', 'clause': 'result independent of values cached by an earlier instruction',
+                           'first': a_name, 'second': b_name},
+                          f'{a_name}(set {ai}) then {b_name}(set {bi}): {r1!r} got {[x.hex()[:16] for x in (st1 or [])]} '
+                          f'want {[x.hex()[:16] for x in sta + st0]}')
+    ctx.evaluations += n - 1
+
+
 def corruption_case(ctx, case):
     k, mlen, tname, t, which = case
     seed = ctx.seed
@@ -306,7 +356,11 @@ def blocks(tier, seed):
                   ((2, 0, 0), (2, 1, 7), (0, 64, 8), (1, 127, 9), (0, 31, 10), (2, 33, 11), (1, 255, 3), (0, 512, 4), (2, 63, 5), (1, 128, 12))]
     cor = [b + (w,) for b in bases for w in ('sa', 'R', 'T', 'X', 'm')]
     bld = [(k, tn, t, si) for k in (range(2) if q else range(3)) for tn, t in (tws[:10] if q else tws) for si in range(len(SIGSETS))]
+    names = ('MASU', 'MASV', 'CAS', 'DAS', 'DERIVE_POINT', 'DERIVE_SCALAR', 'SIGN_STACK', 'CLAMP')
+    seqs = [(a, b) for a in names for b in names]
     return [
+        Block('shared_cache_sequences', seqs, sequence_case, 'every ordered pair of adapter / derivation instructions x parameter sets '
+              '(different / same) in one script', nshards=len(seqs)),
         Block('algebra_make_check_decrypt_recover', alg, algebra_case, 'seeds x message lengths x tweak scalars, both makers', nshards=min(len(alg), 128)),
         Block('single_bit_corruptions', cor, corruption_case, 'every bit of sa, R, T, X, m for the base cases', nshards=len(cor)),
         Block('builders_end_to_end', bld, builder_case, 'witness/locks_pub/locks_prv/decrypt builders x sigfield sets x flags', nshards=min(len(bld), 128)),
